@@ -1,0 +1,27 @@
+//go:build verif
+
+package store
+
+// Contracts for the verification machinery in /verif (comment-only; build tag verif).
+
+// C01: the topic row is advanced before the message row is written, so that at every adapter-call boundary (the
+// points where a crash can separate the writes of one publish) no stored message has a number above the topic's
+// stored high-water mark; a save that fails leaves no row.
+//@ func (m messagesMapper) Save(msg *types.Message, attachmentURLs []string, readBySender bool) (err error, marked bool)
+//@   requires [C01] msg != nil && rowMax[msg.Topic] <= hwm[msg.Topic]
+//@   ensures [C01] recovery:      rowMax[old(msg.Topic)] <= hwm[old(msg.Topic)]
+//@   ensures [C01] saved:         err == nil ==> rowMax[old(msg.Topic)] >= old(msg.SeqId) && hwm[old(msg.Topic)] >= old(msg.SeqId)
+//@   ensures [C01] failed_no_row: err != nil ==> rowMax[old(msg.Topic)] == old(rowMax[msg.Topic])
+//@   ensures [C01] same_msg:      msg.Topic == old(msg.Topic) && msg.SeqId == old(msg.SeqId)
+//@   assert at call MessageSave [C01] hwm_first: hwm[$1.Topic] >= $1.SeqId
+//@   modifies *
+
+// The same contract as seen by callers through the store.Messages interface (assumed there, verified above for
+// the one implementation; the `failed_no_row` clause is what "a publish whose save failed consumes no number" needs).
+//@ func (m MessagesPersistenceInterface) Save(msg *types.Message, attachmentURLs []string, readBySender bool) (err error, marked bool)
+//@   requires [C01] msg != nil
+//@   modifies hwm[msg.Topic], rowMax[msg.Topic]
+//@   ensures [C01] err == nil ==> rowMax[msg.Topic] == (old(rowMax[msg.Topic]) >= msg.SeqId ? old(rowMax[msg.Topic]) : msg.SeqId)
+//@   ensures [C01] err == nil ==> hwm[msg.Topic] == (old(hwm[msg.Topic]) >= msg.SeqId ? old(hwm[msg.Topic]) : msg.SeqId)
+//@   ensures [C01] err != nil ==> rowMax[msg.Topic] == old(rowMax[msg.Topic]) && hwm[msg.Topic] >= old(hwm[msg.Topic])
+//@   ensures [C01] hwm[msg.Topic] <= (old(hwm[msg.Topic]) >= msg.SeqId ? old(hwm[msg.Topic]) : msg.SeqId)
